@@ -524,7 +524,16 @@ func RunCheck(opts CheckOpts) *CheckReport {
 		viols = append(viols, viol{m, "missing", "obligation listed in the baseline was not generated (contract or function removed)", nil})
 	}
 
-	if opts.UpdateBaseline {
+	nRejectedFns := 0
+	for _, fr := range frs {
+		if fr.Rejected != "" {
+			nRejectedFns++
+		}
+	}
+	if opts.UpdateBaseline && nRejectedFns > 0 && os.Getenv("VERIF_BASELINE_FORCE") == "" {
+		// a rejected function has no obligations at all: rewriting the baseline now would silently drop them
+		say("baseline for %s NOT rewritten: %d function(s) are rejected (set VERIF_BASELINE_FORCE=1 to override)", opts.Prop, nRejectedFns)
+	} else if opts.UpdateBaseline {
 		nb := &Baseline{Property: opts.Prop}
 		for _, r := range results {
 			if r.O.Probe {
@@ -672,6 +681,9 @@ func RunCheck(opts CheckOpts) *CheckReport {
 		"append() is modelled as always copying (spare-capacity aliasing between slices is not modelled)",
 		"termination is not proved except for completely unrolled loops",
 		"operator dispatch, argument extraction and the surrounding interpreter/VM are outside the contracts (DESIGN.md section 10)",
+		"loop cuts: a store through a slice defined outside the loop havocs that slice's region only; bodies that call inlined or unknown callees havoc all modelled memory except immutable globals and non-escaping locals (such callees are assumed not to re-point pointer fields)",
+		"two interface values of unknown content are equal iff their dynamic types and an unconstrained identity attribute agree; the dynamic type of interface-typed package variables, package-level constants and the contents of dispatch tables are read from the real package initialisers on every run",
+		"the uninterpreted big-endian value beval(s) of a byte slice is defined as sum(s[i] * 256^(len-1-i)); it is written out for constant lengths and, where a contract says `option bevalbound=N`, for symbolic lengths up to N",
 	}
 	for _, a := range keysOf(inl) {
 		assumptions = append(assumptions, "inlined at call sites (body executed, part of each caller's proof): "+a)
